@@ -1,30 +1,332 @@
-"""C14 - exploratory"""
+"""C14 - unix timestamps convert to and from date-times as mutual inverses."""
+import datetime
 from .common import *
 
 ALLOWED_AXIOMS = []
 DETAIL = 0
-RULE = "x"
-ASSUMPTIONS = []
+RULE = ("timestamps stratified over the years 1..9999 (one stratum per 500 years, the current year, the day borders "
+        "+-1 s, 0, +-1, +-2^31, +-2^32, first/last second of year 1 / 9999, negative ones written with a sign) x "
+        "{N to date, N date, N as/into date, N to ZONE, N ZONE} x 12 default zones (set_tz) x 15 explicit zones; "
+        "<date> as unix in 5 date syntaxes x 12 phrasings; <time> [ZONE] as unix; <date> at H (0..23 kept, >=24 declined); "
+        "x = <date> at HH:MM[:SS] then x as unix; round trips N -> date-time -> N and date-time -> N -> date-time as "
+        "two or three lines with variables and as one line; out-of-range N declined; the printed text of every result "
+        "is checked; non-trivial = the last line evaluates to a date-time or a Raw number; distinct = distinct history")
+ASSUMPTIONS = ["reference zone table of the oracle: UTC/GMT 0, EST -300, CET 60, PST -480, EET 120, HKT 480, "
+               "GMT+H[:MM] = +(60 H + MM) minutes east",
+               "a bare time of day means that time on the current UTC date in the zone it is written in (the default "
+               "zone when none is written)",
+               "'<date> at H' is H hours after midnight UTC of the date (dates are anchored at midnight UTC by the "
+               "statement); '<date> at HH:MM' is generated under the default zone UTC only (see the note in generate)",
+               "English month names and the two date-time templates of config.json (full / current year) are fixed in "
+               "the oracle"]
+
+MON_LONG = ["January", "February", "March", "April", "May", "June", "July", "August", "September", "October",
+            "November", "December"]
+MON_SHORT = ["Jan", "Feb", "Mar", "Apr", "May", "Jun", "Jul", "Aug", "Sep", "Oct", "Nov", "Dec"]
+
+# (text as typed, minutes east of UTC)
+ZONES = [("UTC", 0), ("GMT", 0), ("EST", -300), ("CET", 60), ("PST", -480), ("EET", 120), ("HKT", 480),
+         ("GMT+3", 180), ("GMT-3:30", -210), ("GMT+14", 840), ("GMT-12", -720), ("GMT+5:30", 330),
+         ("GMT+03:00", 180), ("gmt-8", -480), ("est", -300)]
+DEFAULT_ZONES = [("UTC", 0), ("GMT", 0), ("EST", -300), ("CET", 60), ("PST", -480), ("EET", 120), ("HKT", 480),
+                 ("GMT+3", 180), ("GMT-3:30", -210), ("GMT+14", 840), ("GMT-12", -720), ("GMT+5:30", 330)]
+
+TS_MIN = -62135596800          # 0001-01-01 00:00:00
+TS_MAX = 253402300799          # 9999-12-31 23:59:59
+CHRONO_MIN = -8334601228800    # -262143-01-01 00:00:00
+CHRONO_MAX = 8210266876799     # +262142-12-31 23:59:59
+
+
+# ------------------------------------------------------------------ the reference calendar
+def days_of(y, m, d):
+    """day number (1970-01-01 = 0) of a proleptic Gregorian date, any year"""
+    k = 0
+    while y < 1:
+        y += 400
+        k -= 1
+    while y > 9999:
+        y -= 400
+        k += 1
+    return datetime.date(y, m, d).toordinal() - 719163 + 146097 * k
+
+
+def civil_of(n):
+    """(y, m, d, h, mi, s) of the instant n seconds after the epoch (floor division)"""
+    days, sod = divmod(n, 86400)
+    k = 0
+    o = days + 719163
+    while o < 1:
+        o += 146097
+        k -= 1
+    while o > 3652059:
+        o -= 146097
+        k += 1
+    dt = datetime.date.fromordinal(o)
+    return (dt.year + 400 * k, dt.month, dt.day, sod // 3600, sod // 60 % 60, sod % 60)
+
+
+def render(n, zone_name, off, now_year):
+    y, m, d, h, mi, sec = civil_of(n + 60 * off)
+    if y == now_year:
+        return "%d %s %02d:%02d:%02d %s" % (d, MON_LONG[m - 1], h, mi, sec, zone_name)
+    return "%d %s %d %02d:%02d:%02d %s" % (d, MON_SHORT[m - 1], y, h, mi, sec, zone_name)
+
+
+# ------------------------------------------------------------------ generator
+def pick_ts(rng, now_year):
+    r = rng.random()
+    if r < 0.25:
+        return rng.choice([0, 1, -1, 59, 60, 3599, 3600, 86399, 86400, 86401, -86399, -86400, -86401,
+                           2 ** 31 - 1, 2 ** 31, 2 ** 31 + 1, -2 ** 31, -2 ** 31 - 1, -2 ** 31 + 1, 2 ** 32 - 1, 2 ** 32,
+                           2 ** 32 + 1, -2 ** 32, 1609459200, 4102444800, TS_MIN, TS_MIN + 1, TS_MAX, TS_MAX - 1,
+                           TS_MIN + 86399, TS_MAX - 86399, TS_MAX - 86400])
+    if r < 0.33:
+        y = now_year
+    else:
+        stratum = rng.randrange(20)                       # 500 years each
+        y = min(9999, max(1, 500 * stratum + rng.randint(0, 499)))
+    m = rng.randint(1, 12)
+    d = rng.randint(1, 28) if rng.random() < 0.7 else rng.choice([1, 28, 29, 30, 31])
+    try:
+        day = days_of(y, m, d)
+    except ValueError:
+        day = days_of(y, m, 28)
+    b = rng.random()
+    if b < 0.35:
+        sod = rng.choice([0, 1, 86399, 86398, 3600 * 12, 3 * 3600 - 1, 3 * 3600, 21 * 3600, 21 * 3600 - 1])
+    else:
+        sod = rng.randrange(86400)
+    n = day * 86400 + sod
+    return min(TS_MAX, max(TS_MIN, n))
+
+
+def num_text(rng, n):
+    t = str(abs(n))
+    if rng.random() < 0.1 and len(t) > 3:
+        # the default thousands separator '.'
+        out = []
+        while len(t) > 3:
+            out.insert(0, t[-3:])
+            t = t[:-3]
+        out.insert(0, t)
+        t = ".".join(out)
+    return ("-" if n < 0 else "") + t
+
+
+def date_text(rng, y, m, d):
+    k = rng.randrange(5)
+    if k == 0:
+        return "%d/%d/%d" % (d, m, y)
+    if k == 1:
+        return "%d %s %d" % (d, MON_LONG[m - 1].lower(), y)
+    if k == 2:
+        return "%s %d, %d" % (MON_LONG[m - 1].lower(), d, y)
+    if k == 3:
+        return "%s %d %d" % (MON_SHORT[m - 1].lower(), d, y)
+    return "%d %s %d" % (d, MON_SHORT[m - 1], y)
+
+
+def pick_date(rng, now_year):
+    r = rng.random()
+    if r < 0.15:
+        y, m, d = rng.choice([(1, 1, 1), (9999, 12, 31), (1970, 1, 1), (1969, 12, 31), (2000, 2, 29), (2038, 1, 19),
+                              (1900, 2, 28), (2100, 3, 1), (1600, 2, 29), (now_year, 1, 1), (now_year, 12, 31)])
+    else:
+        y = now_year if r < 0.25 else min(9999, max(1, 500 * rng.randrange(20) + rng.randint(0, 499)))
+        m = rng.randint(1, 12)
+        d = rng.randint(1, 28)
+    return y, m, d
+
+
+# the conversion word "in" is left out: behind a number it is read as the unit inch (`5 in unix`, `N in EST` fail
+# with 'No more token' / 'Unknown calculation'); that is the unit lexer's business (C12), not this property's
+UNIX_PHRASES = ["as unix", "to unix", "into unix", "unix", "as unixtime", "to unixtime", "into unixtime", "unixtime",
+                "as unixtimestamp", "to unixtimestamp", "into unixtimestamp", "unixtimestamp"]
+DATE_PHRASES = ["to date", "to date", "as date", "into date", "date"]
 
 
 def generate(rng, tier):
-    texts = ["12 march 2020 at 01:00", "12 march 2020 at 1", "12 march 2020 at 23:30", "x = 12 march 2020 at 01:00\nx as unix", "01:00", "x = 12 march 2020\nx at 5", "12/03/2020 at 5", "12 march 2020 at 5:00 EST",
-     "x = 5:00 EST\ny = 12 march 2020 at x\ny as unix", "1609459200 to date as unix to date", "x = 12 march 2020 at 10:30\ny = x as unix\ny to date", "x = 12 march 2020 at 10:30\ny = x as unix\ny", "y = 12 march 2020 as unix\ny to date", "y = 12 march 2020 as unix\ny + 1", "12 march 2020 as unix + 1",
-     "1609459200 to CET", "1609459200 to PST", "1609459200 to UTC", "1609459200 to gmt", "1609459200 to GMT+14", "1609459200 to IST"]
+    n_cases = 420 if tier == "quick" else 6000
+    now_year = datetime.datetime.utcnow().year
     cases = []
-    for t in texts:
-        cases.append(exec_case(t, "en", kind="probe"))
-        cases.append(exec_case(t, "en", pre=[{"op": "set_tz", "v": "GMT+3"}], kind="probe"))
+
+    def add(text, zone, kind, expect):
+        pre = [] if zone is None else [{"op": "set_tz", "v": zone[0]}]
+        cases.append(exec_case(text, "en", pre=pre, kind=kind, expect=expect, zone=list(zone or ("UTC", 0))))
+
+    def dt(n, zn, off):
+        return {"t": "DateTime", "secs": n, "tzn": zn.upper(), "tzo": off}
+
+    def raw(n):
+        return {"t": "Raw", "v": n}
+
+    while len(cases) < n_cases:
+        r = rng.random()
+        zone = None if rng.random() < 0.3 else rng.choice(DEFAULT_ZONES)
+        dz = zone or ("UTC", 0)
+        if r < 0.22:
+            # N to date: the instant N in the configured zone
+            n = pick_ts(rng, now_year)
+            add("%s %s" % (num_text(rng, n), rng.choice(DATE_PHRASES)), zone, "to-date", [dt(n, dz[0], dz[1])])
+        elif r < 0.36:
+            # N to ZONE / N ZONE: the instant N in the requested zone
+            n = pick_ts(rng, now_year)
+            z = rng.choice(ZONES)
+            conv = rng.choice(["to ", "to ", "as ", "into ", ""])
+            add("%s %s%s" % (num_text(rng, n), conv, z[0]), zone, "to-zone", [dt(n, z[0], z[1])])
+        elif r < 0.50:
+            # <date> as unix: midnight UTC of the date, whatever the configured zone
+            y, m, d = pick_date(rng, now_year)
+            ts = 86400 * days_of(y, m, d)
+            add("%s %s" % (date_text(rng, y, m, d), rng.choice(UNIX_PHRASES)), zone, "date-unix", [raw(ts)])
+        elif r < 0.56:
+            # <time> [ZONE] as unix: that time of the current UTC date in its zone
+            h, mi, sec = rng.randrange(24), rng.randrange(60), rng.randrange(60)
+            z = rng.choice(ZONES) if rng.random() < 0.5 else None
+            withsec = rng.random() < 0.5
+            t = "%02d:%02d" % (h, mi) + (":%02d" % sec if withsec else "")
+            sod = h * 3600 + mi * 60 + (sec if withsec else 0)
+            off = z[1] if z else dz[1]
+            add("%s%s %s" % (t, " " + z[0] if z else "", rng.choice(UNIX_PHRASES)), zone, "time-unix",
+                [{"t": "RawTime", "sod": sod, "off": off}])
+        elif r < 0.68:
+            # <date> at H: hours 0..23; 24 and more are declined
+            y, m, d = pick_date(rng, now_year)
+            h = rng.choice([0, 1, 11, 12, 13, 22, 23]) if rng.random() < 0.5 else rng.randrange(24)
+            ts = 86400 * days_of(y, m, d) + 3600 * h
+            k = rng.random()
+            if k < 0.2:
+                hh = rng.choice([24, 25, 60, 99, 100, 4294967296 + 5])
+                add("%s at %d" % (date_text(rng, y, m, d), hh), zone, "at-declined", [{"t": "Declined"}])
+            elif k < 0.6:
+                add("%s at %d" % (date_text(rng, y, m, d), h), zone, "at-hour", [dt(ts, dz[0], dz[1])])
+            else:
+                add("%s at %d %s" % (date_text(rng, y, m, d), h, rng.choice(UNIX_PHRASES)), zone, "at-hour-unix", [raw(ts)])
+        elif r < 0.76:
+            # x = <date> at HH:MM[:SS]; x as unix.
+            # NOTE (reported, excluded): under a default zone other than UTC the crate glues the UTC time of day of
+            # the time token onto the date, so `12 march 2020 at 01:00` under GMT+3 shows "13 Mar 2020 01:00:00 GMT+3"
+            # (date_rules.rs at_date, "todo: convert timezone informations"); only UTC is generated here.
+            # NOTE (reported, excluded): the one-line form `12 march 2020 at 10:30 as unix` is not evaluated
+            # ("Unknown calculation": `10:30 as unix` is rewritten first); the two-line form is used.
+            y, m, d = pick_date(rng, now_year)
+            h, mi, sec = rng.randrange(24), rng.randrange(60), rng.randrange(60)
+            withsec = rng.random() < 0.5
+            sod = h * 3600 + mi * 60 + (sec if withsec else 0)
+            ts = 86400 * days_of(y, m, d) + sod
+            t = "%02d:%02d" % (h, mi) + (":%02d" % sec if withsec else "")
+            uz = rng.choice([None, ("UTC", 0), ("GMT", 0)])
+            uzz = uz or ("UTC", 0)
+            add("x = %s at %s\nx %s" % (date_text(rng, y, m, d), t, rng.choice(UNIX_PHRASES)), uz, "at-time-unix",
+                [dt(ts, uzz[0], 0), raw(ts)])
+        elif r < 0.90:
+            # N -> date-time -> N
+            n = pick_ts(rng, now_year)
+            k = rng.random()
+            if k < 0.35:
+                add("x = %s %s\nx %s" % (num_text(rng, n), rng.choice(DATE_PHRASES), rng.choice(UNIX_PHRASES)), zone,
+                    "roundtrip-N", [dt(n, dz[0], dz[1]), raw(n)])
+            elif k < 0.6:
+                z = rng.choice(ZONES)
+                add("x = %s to %s\nx %s" % (num_text(rng, n), z[0], rng.choice(UNIX_PHRASES)), zone,
+                    "roundtrip-N-zone", [dt(n, z[0], z[1]), raw(n)])
+            elif k < 0.8:
+                add("%s to date %s" % (num_text(rng, n), rng.choice(UNIX_PHRASES)), zone, "roundtrip-N-line", [raw(n)])
+            else:
+                add("x = %s to date\ny = x %s\ny to date" % (num_text(rng, n), rng.choice(UNIX_PHRASES)), zone,
+                    "roundtrip-N-3", [dt(n, dz[0], dz[1]), raw(n), dt(n, dz[0], dz[1])])
+        elif r < 0.97:
+            # date-time -> N -> date-time
+            y, m, d = pick_date(rng, now_year)
+            h = rng.randrange(24)
+            ts = 86400 * days_of(y, m, d) + 3600 * h
+            if rng.random() < 0.5:
+                add("y = %s at %d %s\ny to date" % (date_text(rng, y, m, d), h, rng.choice(UNIX_PHRASES)), zone,
+                    "roundtrip-D", [raw(ts), dt(ts, dz[0], dz[1])])
+            else:
+                ts = 86400 * days_of(y, m, d)
+                z = rng.choice(ZONES)
+                add("y = %s %s\ny to %s" % (date_text(rng, y, m, d), rng.choice(UNIX_PHRASES), z[0]), zone,
+                    "roundtrip-D", [raw(ts), dt(ts, z[0], z[1])])
+        else:
+            # far outside the years 1..9999: inside chrono's range the instant is N, outside it is declined
+            n = rng.choice([CHRONO_MIN, CHRONO_MIN - 1, CHRONO_MAX, CHRONO_MAX + 1, TS_MAX + 1, TS_MIN - 1,
+                            TS_MIN - 86400, 99999999999999, -99999999999999, 10 ** 15, 2 ** 53, 2 ** 63])
+            add("%s to date" % num_text(rng, n), zone, "far", [{"t": "Far", "secs": n, "tzn": dz[0].upper(), "tzo": dz[1]}])
     return cases
 
 
+# ------------------------------------------------------------------ oracle
 def nontrivial(c, rec):
-    return True
+    lines = last_lines(rec)
+    if not lines or lines[-1] is None:
+        return False
+    k, v = line_value(lines[-1])
+    return k == "item" and (v["t"] == "DateTime" or (v["t"] == "Number" and v["nt"] == "Raw"))
+
+
+def check_line(e, line, header):
+    k, v = line_value(line)
+    if e["t"] == "Declined":
+        if k == "item" and v["t"] in ("DateTime", "Number", "Date", "Time"):
+            return "an hour of 24 or more must be declined, got %r" % (v,)
+        return None
+    if e["t"] == "Far":
+        if k == "item" and v["t"] == "DateTime":
+            e = dict(e, t="DateTime")
+            if not (CHRONO_MIN <= e["secs"] <= CHRONO_MAX):
+                return None if v["dt"]["secs"] == e["secs"] else "date-time of another instant: %r" % (v,)
+        else:
+            return None                     # declined
+    if e["t"] == "DateTime":
+        if k != "item" or v["t"] != "DateTime":
+            return "expected the date-time of %d, got %s %r" % (e["secs"], k, v)
+        if v["dt"]["secs"] != e["secs"] or v["dt"]["nanos"] != 0:
+            return "expected the instant %d, got %r" % (e["secs"], v["dt"])
+        if v["tzn"] != e["tzn"] or v["tzo"] != e["tzo"]:
+            return "expected the zone %s (%d min), got %s (%d min)" % (e["tzn"], e["tzo"], v["tzn"], v["tzo"])
+        text = render(e["secs"], e["tzn"], e["tzo"], header["year"])
+        if line["out"] != text:
+            return "expected the text %r, got %r" % (text, line["out"])
+        return None
+    if e["t"] in ("Raw", "RawTime"):
+        n = e["v"] if e["t"] == "Raw" else header["today"] * 86400 + e["sod"] - 60 * e["off"]
+        if k != "item" or v["t"] != "Number":
+            return "expected the timestamp %d, got %s %r" % (n, k, v)
+        if from_bits(int(v["v"])) != float(n) or v["nt"] != "Raw":
+            return "expected the timestamp %d (Raw), got %r %s" % (n, from_bits(int(v["v"])), v["nt"])
+        if line["out"] != str(n):
+            return "expected the text %r, got %r" % (str(n), line["out"])
+        return None
+    return "oracle: unknown expectation %r" % (e,)
 
 
 def spec_check(c, rec, header):
+    exp = c["meta"].get("expect")
+    if exp is None:
+        return None
+    if rec is None or rec.get("hang") or rec.get("crash"):
+        return "evaluation crashed or hung"
+    for op, obs in zip(c["ops"], rec["obs"]):
+        if "panic" in obs:
+            return "panicked"
+        if op["op"] == "set_tz":
+            zn, off = c["meta"]["zone"]
+            if obs.get("ret") is not True or obs.get("tzn") != zn.upper() or obs.get("tzo") != off:
+                return "set_timezone(%s): expected %s %d, got %r" % (op["v"], zn.upper(), off, obs)
     lines = last_lines(rec)
-    print(c["ops"][-1]["text"].replace("\n", " | "), len(c["ops"]), "=>", [(l and (l.get("out"), l.get("ast") or l.get("err"))) for l in (lines or [])])
+    if lines is None:
+        return "evaluation panicked or hung"
+    if len(lines) != len(exp):
+        return "expected %d result lines, got %r" % (len(exp), lines)
+    for e, line in zip(exp, lines):
+        if line is None:
+            if e["t"] in ("Declined", "Far"):
+                continue
+            return "expected %r, got no result" % (e,)
+        v = check_line(e, line, header)
+        if v:
+            return v
     return None
 
 
